@@ -181,6 +181,44 @@ macro_rules! frames_for {
             );
             ensure!(view.as_bytes() == &frame[..], "roundtrip-differs", "view bytes differ from the frame");
 
+            // 1b. a clone of a view is a view of its own: it outlives the view it was cloned from. The original is
+            // dropped, blocks of the same size are allocated and overwritten (an allocator hands the freed block
+            // out again), and the clone must still show the value that was sent.
+            {
+                let original = DataView::<$ty>::using(aligned(&frame)).map_err(|_| Fail {
+                    signature: "valid-frame-refused".into(),
+                    message: format!("a frame produced by to_view_bytes ({n} bytes) is refused the second time"),
+                })?;
+                let copy = original.clone();
+                let copy2 = copy.clone();
+                drop(original);
+                let fill = (noise.get(4).copied().unwrap_or(0xA5) as u8) | 0x81;
+                let scribble: Vec<AlignedVec> = (0..3)
+                    .map(|_| {
+                        let mut v = AlignedVec::with_capacity(n);
+                        v.resize(n, fill);
+                        v
+                    })
+                    .collect();
+                let back = std::panic::catch_unwind(std::panic::AssertUnwindSafe(|| copy.deserialize_view()));
+                ensure!(
+                    matches!(&back, Ok(Ok(b)) if b == value),
+                    "clone-of-view-differs",
+                    "a clone of a view, read after the view it was cloned from was dropped, does not show the value sent: sent {:?}",
+                    value
+                );
+                ensure!(copy.as_bytes() == &frame[..], "clone-of-view-differs", "bytes of a cloned view differ from the frame");
+                drop(copy);
+                let back2 = std::panic::catch_unwind(std::panic::AssertUnwindSafe(|| copy2.deserialize_view()));
+                ensure!(
+                    matches!(&back2, Ok(Ok(b)) if b == value),
+                    "clone-of-view-differs",
+                    "a clone of a clone of a view, read after both earlier views were dropped, does not show the value sent: sent {:?}",
+                    value
+                );
+                drop(scribble);
+            }
+
             // 2. single-bit flips: exhaustive up to 4 KiB, 2000 sampled bits beyond
             let total_bits = n * 8;
             let mut flips = 0;
